@@ -32,6 +32,7 @@ def familyOf (name : String) : Option Family :=
   | "c20rr" => some c20rr
   | "c20hash" => some c20hash
   | "c20retry" => some c20retry
+  | "c20mt" => some c20mt
   | _ => none
 
 structure Cur where
